@@ -20,6 +20,7 @@ def run(ctx, crate):
     rule_bytes_unit_delegated(ctx, crate)
     rule_duration_fields(ctx, crate)
     rule_human_duration_forms_agree(ctx, crate)
+    rule_floatcount_one_source(ctx, crate)
 
 
 def rule_count_exact(ctx, crate, rule="R-COUNT-EXACT"):
@@ -357,3 +358,54 @@ def rule_human_duration_forms_agree(ctx, crate, rule="R-HDURATION-FORMS-AGREE"):
     clamp = [k for k in b.calls(r"std::cmp::Ord::max", r"core::num::<impl \w+>::max", r"std::cmp::max")
              if any(const_val(a) == 2 for a in k.args) and t in b.slice_args(k, through_calls=False).locals]
     ctx.check(bool(clamp), rule, "clamp-exists", b.name, K.fn_loc(b), "the count is clamped to at least 2 for units above seconds", "the `max(count, 2)` clamp is gone", cfg)
+
+
+def rule_floatcount_one_source(ctx, crate, rule="R-FLOATCOUNT-ONE-SOURCE"):
+    """HumanFloatCount prints the *rounded* fixed-precision representation: integer digits and fraction digits are the two
+    halves of one formatted string (`format!("{:.*}", precision, value)` split at the dot). If the integer digits come from
+    somewhere else (`value.trunc()`) the two halves disagree whenever rounding carries into the integer part (1999.99999 at
+    precision 4 is "2000.0000": "1,999" + "" instead of "2,000"). Checked on the CFG specialised to `split_once('.') = Some`:
+    the digits that are grouped derive from the split result and not from a truncation of the value."""
+    cfg = crate.config
+    b = K.find_one(ctx, crate, rule, r"<format::HumanFloatCount as std::fmt::Display>::fmt")
+    if not b:
+        return
+    splits = b.calls(r"core::str::<impl str>::split_once", r"core::str::<impl str>::(split|splitn|find|rsplit_once)")
+    ctx.floor(rule, len(splits), 1, cfg, "split of the formatted number at the decimal point")
+    if not splits:
+        return
+    sp = splits[0]
+    is_split = lambda pl: b.slice({"k": "copy", "place": {"l": pl["l"], "p": []}}, through_calls=False).has_call(r"core::str::<impl str>::split_once") or pl["l"] == sp.dest["l"]
+    R = K.variant_reach(b, crate, "std::option::Option", "Some", is_split)
+    groups = [c for c in b.calls(r"core::str::<impl str>::chars", r"core::str::<impl str>::(bytes|char_indices|len)") if b.in_loop(c.bb) or c.matches(r".*::chars")]
+    n = 0
+    with b.restricted(R):
+        for c in b.calls(r"core::str::<impl str>::chars"):
+            if c.bb not in R:
+                continue
+            sl = b.slice_args(c, [0])
+            n += 1
+            from_split = any(k.bb == sp.bb for k in sl.calls)
+            trunc = sl.calls_matching(r"(std|core)::f64::<impl f64>::(trunc|floor|ceil|round)")
+            ctx.check(from_split and not trunc, rule, "integer-digits-from-rounded-string", b.name, c.loc(),
+                      "with a decimal point present, the grouped integer digits are the part of the formatted string before it",
+                      "the integer digits do not come from the rounded string (%s) while the fraction digits do: when rounding carries into the integer part the two halves "
+                      "disagree (1999.99999 prints 1,999)" % ("from %s()" % K.meth(trunc[0].path) if trunc else "not from the split"), cfg)
+    ctx.floor(rule, n, 1, cfg, "digit iterations under split_once = Some")
+    # without a decimal point (precision 0, inf, NaN) the digits are the formatted string itself - still the rounded one
+    Rn = K.variant_reach(b, crate, "std::option::Option", "None", is_split)
+    m = 0
+    with b.restricted(Rn):
+        for c in b.calls(r"core::str::<impl str>::chars"):
+            if c.bb not in Rn:
+                continue
+            sl = b.slice_args(c, [0])
+            m += 1
+            from_fmt = sl.has_call(r"(alloc|std)::fmt::format", r"std::string::ToString::to_string") and any(
+                k.matches(r"(alloc|std)::fmt::format") for k in sl.calls)
+            trunc = sl.calls_matching(r"(std|core)::f64::<impl f64>::(trunc|floor|ceil)")
+            ctx.check(from_fmt and not trunc, rule, "no-point-digits-from-rounded-string", b.name, c.loc(),
+                      "without a decimal point the grouped digits are the rounded formatted string",
+                      "at precision 0 the digits are %s instead of the formatted (rounded) string: `{:.0}` of 1234.7 prints 1,234 where the standard formatter prints 1235"
+                      % ("the value's truncation" if trunc else "not the formatted string"), cfg)
+    ctx.floor(rule, m, 1, cfg, "digit iterations under split_once = None")
